@@ -199,7 +199,7 @@ class Baton(object):
                         self.sched.popleft()
                     self.running = tid
                     return
-                if not self.cv.wait(10):
+                if not self.cv.wait(20):
                     self.failed = 'scheduler wait timed out in thread %s' % tid
                     self.running = tid
                     return
@@ -231,6 +231,39 @@ def patch_lexer():
     _patched[0] = True
 
 
+def listener_yield(h, payload):
+    """a scheduling point inside every listener (the thread may be preempted while the parser is delivering an event)"""
+    b = getattr(_local, 'baton', None)
+    if b is not None:
+        b.yield_point(_local.tid)
+
+
+def yield_in_listeners(w):
+    for h in w.h.values():
+        h.hooks = {k: listener_yield for k in ('cell', 'range', 'var', 'fn')}
+
+
+class Blocked(Exception):
+    pass
+
+
+STALLS = [0]      # schedules under which some thread could not proceed for 20 s, twice (never on a tree that holds the property)
+
+
+BLOCKED = {'keys': ['error', 'result'], 'res': {'t': 'blank'}, 'err': '#DID-NOT-RETURN', 'errkind': 'str'}
+
+
+def blocked_events(w, forms, solos):
+    """the history of a run in which some evaluation never returned under the enforced interleaving"""
+    done = {(e['p'], e['formula']) for e in w.ev if e['e'] == 'parse'}
+    for (p, f), solo in zip(forms, solos):
+        text = f['raw'] if 'raw' in f else F.render(f)
+        if (p, text) not in done:
+            w.ev.append({'e': 'parse', 'p': p, 'formula': text, 'ast': {'k': 'omit'}, 'out': BLOCKED, 'events': [], 'calls': [],
+                         'solo': solo, 'checks': ['solo']})
+    return w.ev
+
+
 def count_token_reads(lib, p, f):
     """number of Lexer.token calls of a solo evaluation (yield points of the thread)"""
     import ply.lex
@@ -242,15 +275,18 @@ def count_token_reads(lib, p, f):
             n['n'] += 1
     _local.baton, _local.tid = Counter(), 0
     try:
-        (World(lib) if p in BIND else World(lib, names=(p,))).parse(p, f)
+        w = World(lib) if p in BIND else World(lib, names=(p,))
+        yield_in_listeners(w)
+        w.parse(p, f)
     finally:
         _local.baton = None
     return n['n']
 
 
-def run_threads(lib, case):
+def run_threads(lib, case, attempt=0):
     patch_lexer()
     w = World(lib)
+    yield_in_listeners(w)
     forms = case['formulas']          # [(parser, formula), ...] one per thread
     baton = Baton(case['schedule'], list(range(1, len(forms) + 1)))
     solos = [solo_outcome(lib, p, f) for p, f in forms]
@@ -265,17 +301,56 @@ def run_threads(lib, case):
             _local.baton = None
             baton.finish(tid)
 
-    ts = [threading.Thread(target=body, args=(i + 1, p, f, solos[i])) for i, (p, f) in enumerate(forms)]
+    ts = [threading.Thread(target=body, args=(i + 1, p, f, solos[i]), daemon=True) for i, (p, f) in enumerate(forms)]
     for t in ts:
         t.start()
+    stuck = False
     for t in ts:
-        t.join(30)
-        if t.is_alive():
-            raise core.MachineryError('scheduled thread did not finish (deadlock in the scheduler?)')
-    if baton.failed:
-        raise core.MachineryError(baton.failed)
+        t.join(45)
+        stuck = stuck or t.is_alive()
+    if stuck or baton.failed:
+        # an evaluation that does not come back under this interleaving (it waits for something another thread holds) is a
+        # violation, a stalled machine is not: the same schedule is tried once more before it counts
+        if attempt == 0:
+            return run_threads(lib, case, attempt=1)
+        STALLS[0] += 1
+        return blocked_events(w, forms, solos)
     return w.ev
 
+
+# ------------------------------------------------------------------ a listener that hands an evaluation to another thread
+
+def run_delegate(lib, case, attempt=0):
+    """outer formula on p1; at its j-th callback point the listener (or custom function) has another thread evaluate a
+    formula on another parser and waits for it - a host that serves cells from a worker pool"""
+    w = World(lib)
+    outer, inner, tp = case['outer'], case['inner'], case['target']
+    count = {'n': 0}
+    solo_in = solo_outcome(lib, tp, inner)
+    state = {'blocked': False}
+
+    def hook(h, payload):
+        if h is not w.h['p1'] or len(h.frames) != 2:
+            return
+        count['n'] += 1
+        if count['n'] == case['at']:
+            t = threading.Thread(target=lambda: w.parse(tp, inner, solo_in), daemon=True)
+            t.start()
+            t.join(30)
+            if t.is_alive():
+                state['blocked'] = True
+
+    kinds = ('cell', 'range', 'var', 'fn')
+    if case.get('post'):
+        kinds = tuple(k + ':post' for k in kinds)
+    w.h['p1'].hooks = {k: hook for k in kinds + ('call:NEST',)}
+    w.parse('p1', outer, solo_outcome(lib, 'p1', outer))
+    w.h['p1'].hooks = {}
+    if state['blocked']:
+        if attempt == 0:
+            return run_delegate(lib, case, attempt=1)
+        return blocked_events(w, [(tp, inner)], [solo_in])
+    return w.ev
 
 
 # ------------------------------------------------------------------ one handler object on several parsers
@@ -318,12 +393,13 @@ def run_shared(lib, case):
 
 # ------------------------------------------------------------------ a crowd of evaluations in flight at once
 
-def run_crowd(lib, case):
+def run_crowd(lib, case, attempt=0):
     """n threads, each on its own parser object, all between their first and last token at the same time"""
     patch_lexer()
     n = case['n']
     names = ['q%d' % i for i in range(1, n + 1)]
     w = World(lib, names=names)
+    yield_in_listeners(w)
     forms = [(names[i], case['formulas'][i % len(case['formulas'])]) for i in range(n)]
     counts = [count_token_reads(lib, p, f) + 2 for p, f in forms]
     sched = []
@@ -346,15 +422,18 @@ def run_crowd(lib, case):
             _local.baton = None
             baton.finish(tid)
 
-    ts = [threading.Thread(target=body, args=(i + 1, p, f, solos[i])) for i, (p, f) in enumerate(forms)]
+    ts = [threading.Thread(target=body, args=(i + 1, p, f, solos[i]), daemon=True) for i, (p, f) in enumerate(forms)]
     for t in ts:
         t.start()
+    stuck = False
     for t in ts:
         t.join(60)
-        if t.is_alive():
-            raise core.MachineryError('scheduled thread did not finish (deadlock in the scheduler?)')
-    if baton.failed:
-        raise core.MachineryError(baton.failed)
+        stuck = stuck or t.is_alive()
+    if stuck or baton.failed:
+        if attempt == 0:
+            return run_crowd(lib, case, attempt=1)
+        STALLS[0] += 1
+        return blocked_events(w, forms, solos), names
     return w.ev, names
 
 # ------------------------------------------------------------------ TLC schedules
@@ -415,7 +494,7 @@ def main(tier, replay=None):
             core.validate_hist(run, [{'tid': 1, 'ev': ev, 'case': case}], 'replay', consts, engine='c03', parsers=names)
             return run.finish()
         ev = run_nested(lib, case)[0] if case['kind'] == 'nest' else run_shared(lib, case) if case['kind'] == 'shared' \
-            else run_threads(lib, case)
+            else run_delegate(lib, case) if case['kind'] == 'delegate' else run_threads(lib, case)
         core.validate_hist(run, [{'tid': 1, 'ev': ev, 'case': case}], 'replay', consts, engine='c03')
         return run.finish()
     quick = tier == 'quick'
@@ -451,6 +530,17 @@ def main(tier, replay=None):
                                         ev, _ = run_nested(lib, c2)
                                         traces.append({'tid': len(traces) + 1, 'ev': ev, 'case': c2})
     run.extra['nesting_histories'] = len(traces)
+    # --- the listener hands the inner evaluation to another thread and waits for it
+    ndel = 0
+    for oi, outer in enumerate(outers):
+        c = callback_points(lib, outer)
+        for at in range(1, c + 1):
+            for ii in ((1, 2, 5) if quick else range(len(inners))):
+                for post in (False, True):
+                    case = {'kind': 'delegate', 'outer': outer, 'inner': inners[ii], 'target': 'p2', 'at': at, 'post': post}
+                    traces.append({'tid': len(traces) + 1, 'ev': run_delegate(lib, case), 'case': case})
+                    ndel += 1
+    run.extra['delegating_histories'] = ndel
     # --- threads: all interleavings of two short evaluations on distinct parsers
     pairs = [(inners[0], inners[1]), (outers[0], inners[1]), (inners[5], inners[3]), (outers[3], outers[2]),
              (inners[4], inners[0]), (inners[6], inners[1])]
@@ -469,6 +559,8 @@ def main(tier, replay=None):
         else:
             scheds = [[x[1] for x in sc] for sc in tlc_schedules(run, 'thread', n1, n2)]
         for sc in scheds:
+            if STALLS[0] >= 2:
+                break
             case = {'kind': 'thread', 'formulas': [('p1', f1), ('p2', f2)], 'schedule': sc}
             traces.append({'tid': len(traces) + 1, 'ev': run_threads(lib, case), 'case': case})
             nthread += 1
@@ -479,10 +571,13 @@ def main(tier, replay=None):
         for i, (p, f) in enumerate(fs):
             s += [i + 1] * (count_token_reads(lib, p, f) + 2)
         rng.shuffle(s)
+        if STALLS[0] >= 2:
+            break
         case = {'kind': 'thread', 'formulas': fs, 'schedule': s}
         traces.append({'tid': len(traces) + 1, 'ev': run_threads(lib, case), 'case': case})
         nthread += 1
     run.extra['thread_histories'] = nthread
+    run.extra['schedules_under_which_a_thread_stalled'] = STALLS[0]
     # --- one handler function subscribed (on / once / not at all) on two parsers, evaluations in sequence
     nshared = 0
     for h1 in ('none', 'on', 'once'):
